@@ -40,3 +40,8 @@ Proof.
   exfalso. apply (H r). apply verify_reg_rec_sound. exact E.
 Qed.
 Print Assumptions C02_any_deviation_rejected.
+
+(* non-vacuity: a concrete 'none' registration produced by the simulator is accepted by kernel evaluation and meets RegAccepted *)
+From PW Require Import Proofs.Examples.
+Example C02_nonvacuous : exists r, RegAccepted rx_oracles rx_policy rx_cred r.
+Proof. exact reg_example_meets_the_spec. Qed.
